@@ -66,6 +66,7 @@ func VerifC11(nmax, maxEvents, streamArg int) {
 		}
 	}
 	req := &vMsg{tok: 1}
+	vKnown("R-corrstream", g.stream) // region marker, see F-C09-stream
 	d := CorrectableCallData{Message: req, Method: "verif.C", ServerStream: g.stream}
 	if perNode {
 		d.PerNodeArgFn = func(r protoreflect.ProtoMessage, id uint32) protoreflect.ProtoMessage {
